@@ -974,14 +974,26 @@ class MementoFunctionHashRule(HashRule):
         if self in result:
             # Same entity referenced under another symbol: keep this rule with the one already
             # collected so that re-binding either symbol is noticed (see did_change)
+            seen_before = True
             for rule in result:
                 if rule == self and rule is not self:
+                    seen_before = any(
+                        r.memento_fn is self.memento_fn
+                        or getattr(r.memento_fn, "src_fn", None)
+                        is getattr(self.memento_fn, "src_fn", None)
+                        for r in [rule] + rule.alternates
+                    )
                     rule.alternates.append(self)
-            return
-
-        # Always add self, even if this function is not in package scope. Memento Functions
-        # are tracked across modules and packages.
-        result.add(self)
+            if seen_before:
+                return
+            # Otherwise this is another function of the same qualified name (a name still
+            # refers to a definition that was replaced since): it is hashed with the rule
+            # already collected (see compute_hash) and its own dependencies count as well,
+            # whichever of the two was met first
+        else:
+            # Always add self, even if this function is not in package scope. Memento
+            # Functions are tracked across modules and packages.
+            result.add(self)
 
         # Add transitive dependencies:
         memento_fn = self.memento_fn
